@@ -1,2 +1,7 @@
+import YProofs.Props.C01
+import YProofs.Props.C05
+import YProofs.Props.C13
+import YProofs.Props.C13Error
 import YProofs.Props.C19
 import YProofs.Props.C19Leg
+import YProofs.Props.C20
